@@ -150,9 +150,14 @@ def _work(job: tuple) -> dict:
                             bad_of[f.name] = [elem_value(f.data_type.element_type, py, i) for i in range(f.data_type.capacity + 1)]
                         elif isinstance(f.data_type, pydsdl.CompositeType):
                             bad_of[f.name] = 12345
-                    events = [("ok", n) for n in names] + [("bad", n) for n in names if n in bad_of]
-                    inits = [None] + names
-                    depth = 3 if (thorough or len(events) <= 6) else 2
+                    # a union with many options (the 257-alternative one) is explored over a fixed subset of its options
+                    # (first two, middle, last two): one template loop generates every setter, only the positions differ
+                    sel = names if len(names) <= 5 else [names[0], names[1], names[len(names) // 2], names[-2], names[-1]]
+                    if len(names) > 5:
+                        outcomes.add("union_option_subset")
+                    events = [("ok", n) for n in sel] + [("bad", n) for n in sel if n in bad_of]
+                    inits = [None] + sel
+                    depth = 3 if ((thorough and len(events) <= 10) or len(events) <= 6) else 2
                     for init in inits:
                         for n in range(0, depth + 1):
                             for seq in itertools.product(events, repeat=n):
